@@ -97,6 +97,8 @@ Definition icc_is (r : icc_result) (p : list Z) : bool :=
   match r with IccOk q => zlist_eqb q p | _ => false end.
 Lemma icc_is_ok r p : icc_is r p = true -> r = IccOk p.
 Proof. destruct r; cbn; try discriminate. intros H. apply zlist_eqb_eq in H. congruence. Qed.
+(* a 65520-byte profile: two segments; read back from the reversed marker list, also with a COM
+   marker in front.  Stated as a boolean so that it is decided by vm_compute. *)
 Definition ex_two_check : bool :=
   (1 <=? Zlength ex_profile) && (Zlength ex_profile <=? 255 * MAXD) &&
   match write_icc ex_profile with
@@ -106,21 +108,6 @@ Definition ex_two_check : bool :=
   end.
 Lemma ex_two_check_true : ex_two_check = true.
 Proof. vm_compute. reflexivity. Qed.
-
-Lemma ex_icc_two_segments :
-  1 <= Zlength ex_profile <= 255 * MAXD /\
-  exists segs, write_icc ex_profile = Some segs /\ length segs = 2%nat /\
-    read_icc (rev (markers_of segs)) = IccOk ex_profile /\
-    read_icc (mkSaved M_COM 2 [1; 2] :: rev (markers_of segs)) = IccOk ex_profile.
-Proof.
-  pose proof ex_two_check_true as H. unfold ex_two_check in H.
-  destruct (write_icc ex_profile) as [segs|]; [|rewrite andb_false_r in H; discriminate].
-  apply andb_true_iff in H as (H1 & H2). apply andb_true_iff in H1 as (HA & HB).
-  apply andb_true_iff in H2 as (H3 & HE). apply andb_true_iff in H3 as (HC & HD).
-  split; [split; apply Z.leb_le; assumption|].
-  exists segs. split; [reflexivity|]. split; [apply Nat.eqb_eq; assumption|].
-  split; apply icc_is_ok; assumption.
-Qed.
 
 Lemma ex_icc_bad :
   let a := mkSaved M_APP2 17 (icc_sig_writer ++ [1; 2; 9; 9; 9]) in
